@@ -134,7 +134,10 @@ CLAIMS = {
             "different degree in both orders), sortedness, and that "
             "the line-line solver uses no tolerance, that no crossing is discarded on a stale cached box, that the "
             "merge tolerances are not finer than the parameter grid, and that a crossing at a common end point of two "
-            "curved segments comes out with the exact parameters 0 / 1 (the exact end-point pairs win the merge).",
+            "curved segments comes out with the exact parameters 0 / 1 (the exact end-point pairs win the merge), and "
+            "(abstract runs on exact polynomial stand-in curves with crossings known by construction) that the Newton "
+            "search, the distance filter and PlanarCurve.__and__ end to end return those crossings, also off the "
+            "diagonal of the parameter square and for Jacobians of either sign.",
             "NOT decided: completeness of the Newton search for curved pieces, parity of crossings. Only a small named "
             "fraction of the statement.",
             "DESIGN.md section 2, C14"),
@@ -144,7 +147,7 @@ CLAIMS = {
             "insertions, replaces a segment in place by the pieces at the sorted parameters with all junctions "
             "re-glued, that clean() runs to a fixpoint keeping the junction objects, that BezierCurve.clean lowers "
             "the degree exactly while the error is within tolerance, that two pieces of a curve split at t are "
-            "united at node t, and that the memo tables behind split / degree reduction are keyed completely, by "
+            "united at node t while parabolas that merely meet (corner, or parallel tangents) are refused, and that the memo tables behind split / degree reduction are keyed completely, by "
             "discrete values only, and never mutated.",
             "NOT decided: every numerical clause (point sets, areas, tolerances, least-squares degree reduction, "
             "near-duplicate parameters). pynurbs knot operations are trusted.",
@@ -182,7 +185,8 @@ CLAIMS = {
             "DESIGN.md section 2, C16"),
     "C17": ("abstract interpretation of constructors, vertex enumeration, bounding boxes and the signed length on "
             "stand-in chains and points",
-            "Decides the constructor funnel (closed chains only, junctions shared, strings rejected), that vertices "
+            "Decides the constructor funnel (closed chains only, junctions shared, strings rejected), that from_full_curve "
+            "describes one segment per piece of the spline for degrees 1-3, that vertices "
             "lists every control point object once in order, that boxes are componentwise min/max over all control "
             "points joined over all parts, the sign rule of float(curve), that the area giving the sign sums the "
             "same per-segment integral over straight and curved pieces, and that nothing cached survives a change of "
